@@ -215,7 +215,7 @@ func runC17(r *Result, thorough bool) {
 		realNodeSuspendLimit = 5
 		e := nodes[1]
 		for k := 0; k < 120; k++ {
-			a, b := nodes[1+rng.Intn(len(nodes)-1)], nodes[1+rng.Intn(len(nodes)-1)]
+			a, b := nodes[rng.Intn(len(nodes))], nodes[rng.Intn(len(nodes))]
 			if a != b {
 				b.n.VerifAddTransaction([]byte(fmt.Sprintf("q%d", k)))
 				validExchange(a, b)
